@@ -4,15 +4,15 @@ use proc_macro2::{Span, TokenStream};
 use quote::{format_ident, quote, ToTokens};
 use structmeta::{Flag, NameArgs, NameValue, Parse, StructMeta};
 use syn::{
-    ext::IdentExt, parse::Parse, parse2, parse_quote, spanned::Spanned, token, Attribute, Data, DataEnum,
-    DataStruct, DeriveInput, Error, Expr, ExprLit, Field, Fields, Ident, Index, ItemEnum,
+    ext::IdentExt, parse::Parse, parse2, parse_quote, spanned::Spanned, token, Attribute, Data,
+    DataEnum, DataStruct, DeriveInput, Error, Expr, ExprLit, Field, Fields, Ident, Index, ItemEnum,
     ItemStruct, Lit, Meta, Path, Result, Type, Variant,
 };
 
 use crate::{
     bound::{Bound, Bounds, WhereClauseBuilder},
     common::BinaryOp,
-    syn_utils::expand_self,
+    syn_utils::{expand_self, self_type},
 };
 
 use self::compare_op::{
@@ -183,9 +183,8 @@ fn build_binary_op(
     fields: &[FieldEntry],
 ) -> Result<TokenStream> {
     let kind = DeriveItemKind::BinaryOp(op);
-    let (_, type_g, _) = item.generics.split_for_impl();
     let this_ty_ident = &item.ident;
-    let this_ty: Type = parse_quote!(#this_ty_ident #type_g);
+    let this_ty: Type = self_type(this_ty_ident, &item.generics);
     let generics = expand_self(&item.generics, &this_ty);
     let (impl_g, _, _) = generics.split_for_impl();
     let trait_ = kind.to_path();
@@ -238,9 +237,8 @@ fn build_assign_op(
     fields: &[FieldEntry],
 ) -> Result<TokenStream> {
     let kind = DeriveItemKind::AssignOp(op);
-    let (_, type_g, _) = item.generics.split_for_impl();
     let this_ty_ident = &item.ident;
-    let this_ty: Type = parse_quote!(#this_ty_ident #type_g);
+    let this_ty: Type = self_type(this_ty_ident, &item.generics);
     let generics = expand_self(&item.generics, &this_ty);
     let (impl_g, _, _) = generics.split_for_impl();
     let trait_ = kind.to_path();
@@ -285,9 +283,8 @@ fn build_unary_op(
     fields: &[FieldEntry],
 ) -> Result<TokenStream> {
     let kind = DeriveItemKind::UnaryOp(op);
-    let (_, type_g, _) = item.generics.split_for_impl();
     let this_ty_ident = &item.ident;
-    let this_ty: Type = parse_quote!(#this_ty_ident #type_g);
+    let this_ty: Type = self_type(this_ty_ident, &item.generics);
     let generics = expand_self(&item.generics, &this_ty);
     let (impl_g, _, _) = generics.split_for_impl();
     let trait_ = kind.to_path();
@@ -333,9 +330,9 @@ fn build_clone_for_struct(
     fields: &[FieldEntry],
 ) -> Result<TokenStream> {
     let kind = DeriveItemKind::Clone;
-    let (impl_g, type_g, _) = item.generics.split_for_impl();
+    let (impl_g, _, _) = item.generics.split_for_impl();
     let this_ty_ident = &item.ident;
-    let this_ty: Type = parse_quote!(#this_ty_ident #type_g);
+    let this_ty: Type = self_type(this_ty_ident, &item.generics);
     let trait_ = kind.to_path();
 
     let mut wcb = WhereClauseBuilder::new(&item.generics);
@@ -370,9 +367,9 @@ fn build_clone_for_enum(
     variants: &[VariantEntry],
 ) -> Result<TokenStream> {
     let kind = DeriveItemKind::Clone;
-    let (impl_g, type_g, _) = item.generics.split_for_impl();
+    let (impl_g, _, _) = item.generics.split_for_impl();
     let this_ty_ident = &item.ident;
-    let this_ty: Type = parse_quote!(#this_ty_ident #type_g);
+    let this_ty: Type = self_type(this_ty_ident, &item.generics);
     let trait_ = kind.to_path();
 
     let mut wcb = WhereClauseBuilder::new(&item.generics);
@@ -440,9 +437,9 @@ fn build_copy_for_struct(
     fields: &[FieldEntry],
 ) -> Result<TokenStream> {
     let kind = DeriveItemKind::Copy;
-    let (impl_g, type_g, _) = item.generics.split_for_impl();
+    let (impl_g, _, _) = item.generics.split_for_impl();
     let this_ty_ident = &item.ident;
-    let this_ty: Type = parse_quote!(#this_ty_ident #type_g);
+    let this_ty: Type = self_type(this_ty_ident, &item.generics);
     let trait_ = kind.to_path();
 
     let mut wcb = WhereClauseBuilder::new(&item.generics);
@@ -462,9 +459,9 @@ fn build_copy_for_enum(
     variants: &[VariantEntry],
 ) -> Result<TokenStream> {
     let kind = DeriveItemKind::Copy;
-    let (impl_g, type_g, _) = item.generics.split_for_impl();
+    let (impl_g, _, _) = item.generics.split_for_impl();
     let this_ty_ident = &item.ident;
-    let this_ty: Type = parse_quote!(#this_ty_ident #type_g);
+    let this_ty: Type = self_type(this_ty_ident, &item.generics);
     let trait_ = kind.to_path();
 
     let mut wcb = WhereClauseBuilder::new(&item.generics);
@@ -491,9 +488,9 @@ fn build_debug_for_struct(
     fields: &[FieldEntry],
 ) -> Result<TokenStream> {
     let kind = DeriveItemKind::Debug;
-    let (impl_g, type_g, _) = item.generics.split_for_impl();
+    let (impl_g, _, _) = item.generics.split_for_impl();
     let this_ty_ident = &item.ident;
-    let this_ty: Type = parse_quote!(#this_ty_ident #type_g);
+    let this_ty: Type = self_type(this_ty_ident, &item.generics);
     let trait_ = kind.to_path();
 
     let mut wcb = WhereClauseBuilder::new(&item.generics);
@@ -527,9 +524,9 @@ fn build_debug_for_enum(
     variants: &[VariantEntry],
 ) -> Result<TokenStream> {
     let kind = DeriveItemKind::Debug;
-    let (impl_g, type_g, _) = item.generics.split_for_impl();
+    let (impl_g, _, _) = item.generics.split_for_impl();
     let this_ty_ident = &item.ident;
-    let this_ty: Type = parse_quote!(#this_ty_ident #type_g);
+    let this_ty: Type = self_type(this_ty_ident, &item.generics);
     let trait_ = kind.to_path();
 
     let mut wcb = WhereClauseBuilder::new(&item.generics);
@@ -651,9 +648,9 @@ fn build_default_for_struct(
     fields: &[FieldEntry],
 ) -> Result<TokenStream> {
     let kind = DeriveItemKind::Default;
-    let (impl_g, type_g, _) = item.generics.split_for_impl();
+    let (impl_g, _, _) = item.generics.split_for_impl();
     let this_ty_ident = &item.ident;
-    let this_ty: Type = parse_quote!(#this_ty_ident #type_g);
+    let this_ty: Type = self_type(this_ty_ident, &item.generics);
     let trait_ = kind.to_path();
 
     let mut wcb = WhereClauseBuilder::new(&item.generics);
@@ -686,9 +683,9 @@ fn build_default_for_enum(
     variants: &[VariantEntry],
 ) -> Result<TokenStream> {
     let kind = DeriveItemKind::Default;
-    let (impl_g, type_g, _) = item.generics.split_for_impl();
+    let (impl_g, _, _) = item.generics.split_for_impl();
     let this_ty_ident = &item.ident;
-    let this_ty: Type = parse_quote!(#this_ty_ident #type_g);
+    let this_ty: Type = self_type(this_ty_ident, &item.generics);
     let trait_ = kind.to_path();
 
     let mut wcb = WhereClauseBuilder::new(&item.generics);
@@ -776,9 +773,9 @@ fn build_deref_for_struct(
     fields: &[FieldEntry],
 ) -> Result<TokenStream> {
     let kind = e.kind;
-    let (impl_g, type_g, _) = item.generics.split_for_impl();
+    let (impl_g, _, _) = item.generics.split_for_impl();
     let this_ty_ident = &item.ident;
-    let this_ty: Type = parse_quote!(#this_ty_ident #type_g);
+    let this_ty: Type = self_type(this_ty_ident, &item.generics);
     let trait_ = kind.to_path();
 
     let mut wcb = WhereClauseBuilder::new(&item.generics);
